@@ -54,6 +54,9 @@ func (w *world) drive(label string, done func() bool, maxVirtual time.Duration, 
 				if a := w.byID[strings.SplitN(n, ":", 2)[0]]; a != nil && a.crashed {
 					continue
 				}
+				if w.hold != nil && w.hold(n) {
+					continue // a slow operation the scenario keeps in flight while the clock moves on
+				}
 				live = append(live, n)
 			}
 			if len(live) == 0 {
@@ -394,7 +397,29 @@ func runC09(s *sim.Sim) {
 		v.svc.StopAsync()
 		leavingSeen := func() bool { e, ok := entry(); return (ok && e.State == ring.LEAVING) || crashed() }
 		w.drive("act", leavingSeen, settle, nil)
+		before, beforeOK := entry()
 		w.safeWipe()
+		wipedAt := s.Elapsed()
+		if beforeOK && v.heartbeat > 0 {
+			// a shutdown that takes its time (slow hand-over, final sleep) keeps heartbeating: the next heartbeat
+			// brings the entry back with the remembered state and tokens
+			terminated := func() bool { st := v.svc.State(); return st == services.Terminated || st == services.Failed }
+			back := func() bool { _, ok := entry(); return ok }
+			w.hold = func(n string) bool { return n == "transfer-"+v.id }
+			w.drive("act", func() bool { return crashed() || terminated() || back() }, 2*v.heartbeat+5*time.Second, nil)
+			w.hold = nil
+			switch {
+			case crashed() || terminated():
+			case !back():
+				s.Fail("not-re-registered-after-wipe", "while-leaving", "the ring was wiped at %v while %s was shutting down (entry %s); it is still shutting down and heartbeating (period %v) %v later, and its entry is still missing", wipedAt, v.id, fmtInst(before, true), v.heartbeat, s.Elapsed()-wipedAt)
+			default:
+				e, _ := entry()
+				if e.State != before.State || fmt.Sprint(e.Tokens) != fmt.Sprint(before.Tokens) {
+					s.Fail("re-registered-with-different-identity", "while-leaving", "after the wipe during its shutdown %s came back as %s, before it was %s", v.id, fmtInst(e, true), fmtInst(before, true))
+				}
+				s.Probe("re-registered-after-wipe-while-leaving")
+			}
+		}
 		w.drive("act", func() bool { return crashed() || v.svc.State() == services.Terminated || v.svc.State() == services.Failed }, settle, nil)
 	}
 
